@@ -159,13 +159,13 @@ var c01Alphabet = []string{
 	"+", "-", "*", "/", "%", "&", "|", "^", "&&", "||", "??", "!", "!.", "!!", "~", "?", ":", "=",
 	"true", "false", "null", "this", "ctx", "typeof",
 	"a", "$x", "_", "1", "2.5", ".5", "1e3", "'s'", "\"t\"",
-	"#", "\\", "'u", "1a", "1_", "0x1",
+	"#", "\\", "'u", "1a", "1_", "0x1", "\xe2\x80", "\xc2",
 }
 
 // TestC01TokenSequences: every sequence of up to k tokens over the full alphabet.
 func TestC01TokenSequences(t *testing.T) {
 	k := h.N(4, 5)
-	run := h.Begin("C01", "token-sequences", fmt.Sprintf("bounded-exhaustive: every sequence of 1..%d tokens over the full %d-lexeme alphabet (all operators, keywords, identifier/number/string spellings, hostile lexemes '#', '\\', unterminated string, '1a', '1_', '0x1'), space separated; oracle: no panic, returns, exactly one of error / complete tree with no diagnostics and the whole input consumed; non-trivial: more than one token and accepted with >=3 nodes or rejected", k, len(c01Alphabet)))
+	run := h.Begin("C01", "token-sequences", fmt.Sprintf("bounded-exhaustive: every sequence of 1..%d tokens over the full %d-lexeme alphabet (all operators, keywords, identifier/number/string spellings, hostile lexemes '#', '\\', unterminated string, '1a', '1_', '0x1', truncated UTF-8 sequences), space separated; oracle: no panic, returns, exactly one of error / complete tree with no diagnostics and the whole input consumed; non-trivial: more than one token and accepted with >=3 nodes or rejected", k, len(c01Alphabet)))
 	defer run.End(t)
 	wd := startWatchdog(t, run, 20*time.Second) // a parse that does not return is a violation (hang), not a harness timeout
 	defer wd.close()
